@@ -257,7 +257,7 @@ impl Database {
             if group
                 .groups()
                 .iter()
-                .filter(|g| !is_in_deleted_queue(g.uuid, &deleted_groups_queue))
+                .filter(|g| is_in_deleted_queue(g.uuid, &deleted_groups_queue))
                 .collect::<Vec<_>>()
                 .len()
                 != 0
